@@ -61,11 +61,17 @@ def run(ctx):
             combos += [("valid", False, a) for a in NOT_YES]
             # PINs that are 8 characters long but not ASCII alphanumerics
             combos += [(pk, ap, ["yes"]) for pk in ODD_PINS for ap in (False,)]
-        for pin_kind, any_pin, ans in combos:
+        combos = [c + (None,) for c in combos]
+        if mode == 2 and onb and not echo_bad:
+            # an onboarded device whose answer to the "are you onboarded?" question is lost or is an error
+            combos += [("valid", False, ["yes"], f) for f in (0x6E00, 0x6F01, 0x6985, 0x6B01, ("T",), ("W",), ("R",))]
+        for pin_kind, any_pin, ans, onb_fault in combos:
             typed = [b"zz", b"12345678", b"longerthan8x", b"good1234"] if pin_kind is None else []
             seed = gen.rbytes(rng, 32)
             d = devices.Device(mode=mode, onboarded=onb, sgx=(kind == "sgx"))
             d.echo_bad = echo_bad
+            if onb_fault is not None:
+                d.inject[(0x06, "*")] = onb_fault
             opt = admincmd.Opt(pin=PINS.get(pin_kind), any_pin=any_pin,
                                output_file_path=os.path.join(tmp, "att.json"))
             obs = admincmd.run_admin("onboard", kind, opt, ans, typed, seed, device=d)
@@ -171,8 +177,10 @@ def run(ctx):
                 k = certs.K1Key(rng)
                 d.pubkeys[gen.path_binary(p)] = k.pub()
             out = os.path.join(tmp, "keys.txt")
+            # the first export starts from a clean directory; the second one (another device, same output
+            # path) finds the files of the first
             for f in (out, os.path.join(tmp, "keys.json")):
-                if os.path.exists(f):
+                if os.path.exists(f) and not no_unlock:
                     os.unlink(f)
             opt = admincmd.Opt(pin="abcd1234", no_unlock=no_unlock, output_file_path=out)
             obs = admincmd.run_admin("pubkeys", kind, opt, [], [], b"", device=d)
@@ -183,9 +191,12 @@ def run(ctx):
                     js = json.load(open(os.path.join(tmp, "keys.json")))
                     txt = open(out).read()
                     exp_js = {p: d.pubkeys[gen.path_binary(p)].hex() for p in gen.PATHS}
-                    ok_txt = all(ecdsa.VerifyingKey.from_string(d.pubkeys[gen.path_binary(p)],
-                                                                curve=ecdsa.SECP256k1).to_string("compressed").hex()
-                                 in txt for p in gen.PATHS)
+                    import re as _re
+                    want_txt = sorted(ecdsa.VerifyingKey.from_string(
+                        d.pubkeys[gen.path_binary(p)], curve=ecdsa.SECP256k1).to_string("compressed").hex()
+                        for p in gen.PATHS)
+                    # exactly these six keys and no other key-like token
+                    ok_txt = sorted(_re.findall(r"(?<![0-9a-fA-F])0[23][0-9a-f]{64}(?![0-9a-fA-F])", txt)) == want_txt
                     if js != exp_js or not ok_txt:
                         res["violations"].append({"key": "C18:pubkeys-files", "what": "public keys written are not "
                                                   "the device's keys for the six documented paths"})
